@@ -153,6 +153,56 @@ func genRestartHistory(r *rand.Rand, emit func(string), ids []string, state *srG
 	}
 }
 
+// genResumptions: a persistent session that holds unacknowledged exchanges in both directions (outbound QoS 1/2
+// messages, an outbound QoS 2 message already answered with PUBREC, an inbound QoS 2 publish waiting for PUBREL) is
+// resumed one to three times without completing them before the broker stops: what a resumption deletes from the
+// store on behalf of the superseded connection must be written back for the live one, every time.
+func genResumptions(r *rand.Rand, emit func(string), ids []string, state *srGenState) {
+	sub, pub := ids[0], ids[1]
+	if sub == pub {
+		pub = sub + "p"
+	}
+	topic := pick(r, srTopics)
+	subVer := pick(r, []int{4, 5})
+	subKV := ""
+	if subVer == 5 {
+		subKV = " sei=3600"
+	}
+	conn := func(id string, ver int, clean int, kv string) int {
+		n := state.next
+		state.next++
+		state.open[n], state.idOf[n], state.nextPid[n] = ver, id, 1
+		emit(strings.TrimSpace(fmt.Sprintf("sr.conn %d %d %d %s%s", n, ver, clean, hs(id), kv)))
+		return n
+	}
+	s := conn(sub, subVer, 0, subKV)
+	emit(fmt.Sprintf("sr.send %d SUBSCRIBE id=101 f=%s:2:0:0:0", s, hs(topic)))
+	p := conn(pub, pick(r, []int{4, 5}), 1, "")
+	nOut := 1 + r.Intn(3)
+	for i := 0; i < nOut; i++ {
+		emit(fmt.Sprintf("sr.send %d PUBLISH t=%s p=%s q=%d r=0 id=%d", p, hs(topic), hs(fmt.Sprintf("o%d", i)), 1+r.Intn(2), 201+i))
+		if r.Intn(2) == 0 {
+			emit(fmt.Sprintf("sr.send %d PUBREL id=%d", p, 201+i))
+		}
+	}
+	if r.Intn(2) == 0 { // the subscriber's own inbound QoS 2 exchange stays open (PUBREC stored, no PUBREL)
+		emit(fmt.Sprintf("sr.send %d PUBLISH t=%s p=%s q=2 r=0 id=77", s, hs(pick(r, srTopics)), hs("in")))
+	}
+	if r.Intn(2) == 0 { // an outbound QoS 2 message gets its PUBREC: the record becomes a PUBREL
+		emit(fmt.Sprintf("sr.send %d PUBREC id=%d", s, 1+r.Intn(nOut)))
+	}
+	for k, resumes := 0, 1+r.Intn(3); k < resumes; k++ {
+		if r.Intn(3) == 0 {
+			emit(fmt.Sprintf("sr.drop %d", s))
+		}
+		delete(state.open, s)
+		s = conn(sub, subVer, 0, subKV)
+		if r.Intn(4) == 0 {
+			emit(fmt.Sprintf("sr.send %d PUBACK id=%d", s, 1+r.Intn(nOut)))
+		}
+	}
+}
+
 type srGenState struct {
 	next    int
 	open    map[int]int
@@ -191,7 +241,11 @@ func genRestart(backends []string) func(r *rand.Rand, n int, emit func(string)) 
 				emit(fmt.Sprintf("sr.acl %s %s r", hs(pick(r, ids)), hs(pick(r, srFilters))))
 			}
 			st := &srGenState{next: 1, open: map[int]int{}, idOf: map[int]string{}, nextPid: map[int]int{}}
-			genRestartHistory(r, emit, ids, st, 6+r.Intn(20))
+			if r.Intn(3) == 0 {
+				genResumptions(r, emit, ids, st)
+			} else {
+				genRestartHistory(r, emit, ids, st, 6+r.Intn(20))
+			}
 			emit("sr.restart")
 			if r.Intn(3) == 0 { // the restarted broker goes on: every connection is gone, sessions may be resumed
 				st.open = map[int]int{}
